@@ -158,7 +158,8 @@ structure Side where
   con : Option Connector.State := none     -- state of Manager._connector
   lst : Bool := false       -- the current connector's listener is open
   stale : Bool := false     -- a listener of an old connector is still open
-  att : List Att := []      -- scheduled outbound connections, oldest first
+  att : List Att := []      -- scheduled outbound connections whose deferLater has not fired yet, oldest first
+  fly : List Att := []      -- connection attempts in flight: `_connect` ran, `ep.connect()` has not answered yet
   rhalf : Option End := none  -- this side's connection to the relay, waiting there for the peer's (relay handshake sent, no `ok` yet)
   conn : Option Nat := none -- Manager._connection (slot of the link)
   eq : List EqCall := []    -- the control-relevant calls waiting in the EventualQueue
@@ -287,7 +288,7 @@ def retireConnector (x : SideId) (s : Sys) : Sys :=
       let e := k.end_ x
       if e.owner = none then k.setEnd x { e with owner := some st } else k) s.links }
     let s := s.setChanFrom x ((s.chanFrom x).map unstale)
-    let s := s.modSide x.other (fun p => { p with att := p.att.map Att.stale, pend := p.pend.map unstale })
+    let s := s.modSide x.other (fun p => { p with att := p.att.map Att.stale, fly := p.fly.map Att.stale, pend := p.pend.map unstale })
     s.modSide x (fun sd => { sd with stale := sd.stale || sd.lst, lst := false,
                                      rhalf := sd.rhalf.map (fun e => if e.owner = none then { e with owner := some st } else e) })
 
@@ -439,10 +440,12 @@ def conOutput (fuel : Nat) (x : SideId) (l : Nat) (fresh : Att) (o : Connector.O
   | .use_hints => (s.modSide x (fun sd => { sd with att := sd.att ++ [fresh] }), none)   -- _schedule_connection (one hint per listener)
   | .consider => (s.modSide x (fun sd => { sd with eq := sd.eq ++ [.accept l] }), none)
   | .stop_everything =>
-    let s := s.modSide x (fun sd => { sd with lst := false, att := [] })   -- stop_listeners, stop_pending_connectors
+    -- stop_listeners; stop_pending_connectors: `d.cancel()` stops a delayed call that has not fired and, through the
+    -- chained Deferred, aborts an `ep.connect()` that is still in flight
+    let s := s.modSide x (fun sd => { sd with lst := false, att := [], fly := [] })
     (stopPendingConnections x none s, none)
   | .select_and_stop_remaining =>
-    let s := s.modSide x (fun sd => { sd with lst := false, att := [] })
+    let s := s.modSide x (fun sd => { sd with lst := false, att := [], fly := [] })
     let s := stopPendingConnections x (some l) s
     -- c.select(manager)
     match s.link? l with
@@ -534,7 +537,9 @@ inductive Event where
   | vers (x : SideId)
   | dilate (x : SideId)
   | deliver (x : SideId)       -- the next mailbox message for `x` reaches its Dilator
-  | connect (x : SideId)       -- the oldest scheduled outbound connection of `x` is attempted
+  | connect (x : SideId)       -- the oldest outbound connection attempt of `x` is answered (established / refused / joined at the relay)
+  | cut (x : SideId)           -- the network changes: from now on connections DIALLED by `x` no longer get through
+  | dial (x : SideId)          -- the deferLater of the oldest scheduled connection of `x` fires: the attempt is in flight
   | turn1 (x : SideId)         -- the eventual queue of `x` runs its oldest call
   | sigrec (x : SideId)        -- TrafficTimer.on_reconnect: Manager._signal_reconnect
   | hs (l : Nat)
@@ -593,7 +598,7 @@ def freshHints (ms : List Msg) : Nat := (ms.filter (· == .hints true)).length
 def relayLeg (s : Sys) (x : SideId) : Bool :=
   let sd := s.side x
   (match sd.rhalf with | some e => e.owner = none && e.status = .open_ | none => false) ||
-  sd.att.contains .relay ||
+  sd.att.contains .relay || sd.fly.contains .relay ||
   (s.chanFrom x.other).contains (.rhints true) || sd.pend.contains (.rhints true)
 
 /-- candidate opportunities of the newest generation other than link `l`: healthy links between the
@@ -606,8 +611,8 @@ def otherCandidates (s : Sys) (l : Nat) : Nat :=
     | i, none :: t => cnt (i + 1) t
     | i, some k :: t => (if i ≠ l ∧ healthy k ∧ k.a.owner = none ∧ k.b.owner = none then 1 else 0) + cnt (i + 1) t
   cnt 0 s.links
-    + (if s.ra then (s.a.att.filter (· == .direct true)).length + freshHints s.ba + freshHints s.a.pend else 0)
-    + (if s.rb then (s.b.att.filter (· == .direct true)).length + freshHints s.ab + freshHints s.b.pend else 0)
+    + (if s.ra then ((s.a.att ++ s.a.fly).filter (· == .direct true)).length + freshHints s.ba + freshHints s.a.pend else 0)
+    + (if s.rb then ((s.b.att ++ s.b.fly).filter (· == .direct true)).length + freshHints s.ab + freshHints s.b.pend else 0)
     + (if relayLeg s .A && relayLeg s .B then 1 else 0)
 
 /-- may the network drop end `(x, l)` now?  Always, except for the LAST candidate of the newest
@@ -628,7 +633,13 @@ def enabled (s : Sys) : Event → Bool
   | .vers x => (s.side x).key && !(s.side x).vers
   | .dilate x => !(s.side x).dil
   | .deliver x => (s.side x).vers && !(s.chanFrom x.other).isEmpty
-  | .connect x => !(s.side x).att.isEmpty
+  | .connect x => !(s.side x).att.isEmpty || !(s.side x).fly.isEmpty
+  | .dial x => !(s.side x).att.isEmpty
+  | .cut x =>
+    -- some path must remain for the generations to come, and the last candidate of the generation in progress is spared
+    s.reach x && (s.reach x.other || s.relay.isSome) &&
+      (let s' : Sys := match x with | .A => { s with ra := false } | .B => { s with rb := false }
+       otherCandidates s' 1000000 > 0 || otherCandidates s 1000000 = 0)
   | .turn1 x => !(s.side x).eq.isEmpty
   | .sigrec x => (s.side x).dil && (s.side x).role = some .leader && (s.side x).conn.isSome
   | .hs l =>
@@ -686,17 +697,27 @@ def apply (s : Sys) : Event → Sys × Outcome
       match dilatorReceived x m s with
       | (s, none) => (s, .ok)
       | (s, some e) => (s, .exn e)
+  | .cut x => ((match x with | .A => { s with ra := false } | .B => { s with rb := false }), .ok)
+  | .dial x =>
+    -- the deferLater of the oldest scheduled connection fires: `_connect` calls `ep.connect(f)`
+    (match (s.side x).att with
+     | [] => (s, .skip)
+     | a :: rest => (s.modSide x (fun sd => { sd with att := rest, fly := sd.fly ++ [a] }), .ok))
   | .connect x =>
-    match (s.side x).att with
+    -- the oldest attempt in flight is answered (if none is in flight the oldest scheduled one is dialled first)
+    let s := match (s.side x).fly, (s.side x).att with
+      | [], a :: rest => s.modSide x (fun sd => { sd with att := rest, fly := [a] })
+      | _, _ => s
+    match (s.side x).fly with
     | [] => (s, .skip)
     | .direct tgt :: rest =>
-      let s := s.modSide x (fun sd => { sd with att := rest })
+      let s := s.modSide x (fun sd => { sd with fly := rest })
       if tgt && (s.side x.other).lst && s.reach x then
         ({ s with links := placeLink s.links { dialer := x } }, .ok)
       else (s, .ok)                                   -- ConnectionRefusedError, trapped
     | .relay :: rest =>
       -- the relay is reachable; it joins this connection with the peer's if one is waiting there, else this one waits
-      let s := s.modSide x (fun sd => { sd with att := rest })
+      let s := s.modSide x (fun sd => { sd with fly := rest })
       (match (s.side x.other).rhalf with
        | some e =>
          let s := s.modSide x.other (fun p => { p with rhalf := none })
@@ -796,6 +817,7 @@ structure Abs where
   K : Nat               -- link slots
   W : Nat               -- application records with a seqnum, per side
   ext : Bool            -- silent loss, ping timer, records
+  split : Nat := 2      -- which connection attempts may stay in flight (`dial` separately from `connect`): 2 all, 1 only those to the relay, 0 none
   inits : List Sys
 
 def enabledP (p : Abs) (s : Sys) (e : Event) : Bool :=
@@ -803,10 +825,12 @@ def enabledP (p : Abs) (s : Sys) (e : Event) : Bool :=
   (match e with
    | .connect x =>
      -- a connection that would succeed needs a free slot among the K
-     (match (s.side x).att with
+     (match (s.side x).fly ++ (s.side x).att with
       | .direct tgt :: _ => !(tgt && (s.side x.other).lst && s.reach x) || firstFree s.links < p.K
       | .relay :: _ => (s.side x.other).rhalf.isNone || firstFree s.links < p.K
       | [] => false)
+   | .cut _ => false       -- a network that changes during the run is left to the differential runs
+   | .dial x => p.split = 2 || (p.split = 1 && (s.side x).att.head? = some .relay)
    | .hs l | .kcmf l | .kcml l | .lose _ l => l < p.K
    | .write x => p.ext && (s.side x).nseq < p.W
    | .tick _ => p.ext
@@ -815,7 +839,7 @@ def enabledP (p : Abs) (s : Sys) (e : Event) : Bool :=
 
 def sideEvents : List Event :=
   [.key .A, .key .B, .vers .A, .vers .B, .dilate .A, .dilate .B, .deliver .A, .deliver .B,
-   .connect .A, .connect .B, .turn1 .A, .turn1 .B, .sigrec .A, .sigrec .B,
+   .connect .A, .connect .B, .dial .A, .dial .B, .turn1 .A, .turn1 .B, .sigrec .A, .sigrec .B,
    .write .A, .write .B, .tick .A, .tick .B]
 
 def linkEvents (l : Nat) : List Event :=
@@ -834,14 +858,14 @@ def absS : Abs :=
   { K := 1, W := 1, ext := true,
     inits := [{ cmp := .gt }, { cmp := .gt, rb := false }, { cmp := .gt, ra := false }] }
 
-/-- the transit relay: one side is configured with it (A leads; either side may be the configured one), direct
-    dialling works in both, one or NO direction; at most 2 links at a time; no records / timer / silent loss -/
+/-- the transit relay: one side is configured with it (A leads; either side may be the configured one); direct
+    dialling works in NO direction, or only for the side that does NOT have the relay; at most 2 links at a time;
+    the attempts to reach the relay may stay in flight (`dial` / `connect` apart); no records / timer / silent loss -/
 def absR : Abs :=
-  { K := 2, W := 0, ext := false,
+  { K := 2, W := 0, ext := false, split := 1,
     inits := [{ cmp := .gt, relay := some .A, ra := false, rb := false },
               { cmp := .gt, relay := some .B, ra := false, rb := false },
-              { cmp := .gt, relay := some .A, rb := false }, { cmp := .gt, relay := some .B, rb := false },
-              { cmp := .gt, relay := some .A, ra := false }, { cmp := .gt, relay := some .B, ra := false }] }
+              { cmp := .gt, relay := some .B, rb := false }, { cmp := .gt, relay := some .A, ra := false }] }
 
 def K : Nat := absK.K
 def enabledK : Sys → Event → Bool := enabledP absK
@@ -1062,7 +1086,7 @@ def showSide (c : Conc) (x : SideId) : String :=
   let con := match sd.con with | none => "-" | some st => Connector.State.name st
   let conn := match sd.conn with | none => "-" | some l => toString l
   let tt := match sd.tt with | none => "-" | some st => TrafficTimer.State.name st
-  base ++ s!" mgr={Manager.State.name sd.mgr} role={roleStr sd.role} con={con} lst={b01 sd.lst} stale={b01 sd.stale} att=[{",".intercalate (sd.att.map attStr)}] rh={match sd.rhalf with | none => "-" | some e => (match e.owner with | none => "cur" | some st => "old-" ++ Connector.State.name st)} conn={conn} eq=[{",".intercalate (sd.eq.map eqStr)}] tt={tt} gen={gen} tm={b01 sd.timer} oq=[{",".intercalate (sd.oq.map toString)}] rxh={sd.rxh}"
+  base ++ s!" mgr={Manager.State.name sd.mgr} role={roleStr sd.role} con={con} lst={b01 sd.lst} stale={b01 sd.stale} att=[{",".intercalate (sd.att.map attStr)}] fly=[{",".intercalate (sd.fly.map attStr)}] rh={match sd.rhalf with | none => "-" | some e => (match e.owner with | none => "cur" | some st => "old-" ++ Connector.State.name st)} conn={conn} eq=[{",".intercalate (sd.eq.map eqStr)}] tt={tt} gen={gen} tm={b01 sd.timer} oq=[{",".intercalate (sd.oq.map toString)}] rxh={sd.rxh}"
 
 def msgStr : Msg → String
   | .please => "please"
@@ -1115,6 +1139,8 @@ def sysEvent? : List String → Option Event
   | ["vers", x] => (side? x).map .vers
   | ["dilate", x] => (side? x).map .dilate
   | ["connect", x] => (side? x).map .connect
+  | ["dial", x] => (side? x).map .dial
+  | ["cut", x] => (side? x).map .cut
   | ["sigrec", x] => (side? x).map .sigrec
   | ["write", x] => (side? x).map .write
   | ["tick", x] => (side? x).map .tick
